@@ -260,6 +260,22 @@ def copyWith (s : St) (L : List Nat) : St :=
 
 def copyTree (s : St) (n : Nat) : St := copyWith s (subtreeList s n)
 
+/-- the temporary deep copy made inside `replaceBlockWithBlock` goes out of reach: the model forgets it (no
+children, no grid) and its former children become parentless -- `Composite.add` overwrites their back-pointer
+anyway; their locators stay in the forgotten block's grid, as in the code -/
+def dropKids (s : St) (t : Nat) : St :=
+  { s with
+    parent := fun x => if x ∈ s.kids t then none else s.parent x
+    kids := fun x => if x = t then [] else s.kids x
+    grid := fun x => if x = t then none else s.grid x }
+
+/-- `Block.replaceBlockWithBlock(bReplacement)`: `tempBlock = copy.deepcopy(bReplacement)` (ids `next…`),
+then `self.setChildren(tempBlock.getChildren())` (parameters: C16) -/
+def replaceBlock (s : St) (b r : Nat) : St × Bool :=
+  let s1 := copyTree s r
+  let t := s.next
+  setChildren (dropKids s1 t) b (s1.kids t)
+
 /-! ### the op alphabet of `inv_run` -/
 
 inductive Op where
